@@ -76,7 +76,7 @@ func snapshot(dir string) map[string]snapEntry {
 	return out
 }
 
-var cliUserFiles = []string{"oas_x.go", "myoas_gen.go", "openapi_gen.go.bak", "user.go", "oas_user_gen.go", "openapi_extra_gen_test.go", "OAS_upper_gen.go", "oas_gen.go.txt", "oas_gen.go", "xoas_a_gen.go", "openapi_gen_test.go", "openapi_generate.go", "oas_generic_helpers.go", "oas_gen_overrides.go", "oas_a_gen_b.go", "oas_gen.gox", "oas_x_gen_test.go.go", "openapi_gen", "oas_gen_test.go.orig", "oas_.go", "oas_a_GEN.go"}
+var cliUserFiles = []string{"oas_x.go", "myoas_gen.go", "openapi_gen.go.bak", "user.go", "oas_user_gen.go", "openapi_extra_gen_test.go", "OAS_upper_gen.go", "oas_gen.go.txt", "oas_gen.go", "xoas_a_gen.go", "openapi_gen_test.go", "openapi_generate.go", "oas_generic_helpers.go", "oas_gen_overrides.go", "oas_a_gen_b.go", "oas_gen.gox", "oas_x_gen_test.go.go", "openapi_gen", "oas_gen_test.go.orig", "oas_.go", "oas_a_GEN.go", "oas_handlers_gen_tests.go", "oas_client_gen_set.go", "openapi_b_gen_est.go", "oas_c_gen_t.go", "oas_d_gen__.go", "oas_e_gen_test_test.go", "oas_f_gen.go.go", "oas_g_gen_tes.go"}
 
 func c20(r *lp.Run) {
 	r.SetRule("the cmd/ogen binary built from /repo, run with --clean (and without) for every pre-write failure stage (bad flag; missing, malformed, unknown-field config; missing spec; malformed YAML; invalid version; spec validation; not-implemented feature; dangling $ref; duplicate operationId; routing conflict) and for success, crossed with every target state (absent, empty, previous generation, previous generation + look-alike user files + directories named like generated files + nested directories, the same read-only); recursive snapshot (names, modes, hashes) before and after, exit code; top-level outcome compared with the Lean stage machine. non-trivial = distinct (stage, state, clean) with a non-empty target")
